@@ -1338,16 +1338,23 @@ Proof.
   rewrite Hr. rewrite Hl. reflexivity.
 Qed.
 
-(* ... and when the ceiling was not lowered below the table's maximum, also the 4.2 clause *)
-Corollary hpack_decode_sound_rfc hd d bs :
+(* ... and also the 4.2 clause (a lowered limit has to be followed by a size update), EXCEPT for
+   the known finding KF-C11-3: h2 does not check that the peer sends the size update it owes.
+   [required_update_pending d]: the ceiling in force for the next block is below the table's
+   maximum. *)
+Definition required_update_pending (d : decoder) : Prop :=
+  d_last_max (take_queued d) < tmax d.
+
+Corollary hpack_decode_sound_rfc_except_known hd d bs :
   wf d -> octets bs ->
-  tmax d <= d_last_max (take_queued d) ->
+  ~ required_update_pending d ->
   r_verdict (decode hd d bs) = VOk ->
   rfc_block_decodes hd h2_int_limit (abs (take_queued d)) bs
                     (r_fields (decode hd d bs)) (abs (r_dec (decode hd d bs))).
 Proof.
   intros Hwf Hb Hle Hv. split; [apply hpack_decode_sound; assumption|].
-  left. unfold abs. cbn [r_max r_limit]. rewrite take_queued_table. exact Hle.
+  left. unfold abs. cbn [r_max r_limit]. rewrite take_queued_table.
+  unfold required_update_pending in Hle. lia.
 Qed.
 
 (* the integer limit of the statement is the strongest one: more octets only accept more *)
@@ -1667,22 +1674,22 @@ Proof.
   - auto.
 Qed.
 
-(* Stronger bound by the limit currently in force -- as long as the limit in force at the start
-   of the block is not below the table's maximum (i.e. it was not lowered, or the peer has
-   already followed with a size update). *)
-Theorem hpack_table_within_current_limit hd d frags :
-  wf d -> tmax d <= last_limit_of d ->
+(* Stronger bound by the limit currently in force, EXCEPT for the known finding KF-C11-3 (a
+   lowered limit that the peer does not follow with a size update is not enforced). *)
+Theorem hpack_table_within_limit_except_known hd d frags :
+  wf d -> ~ required_update_pending d ->
   let d' := r_dec (decode_chunks hd d frags) in
   t_size (d_table d') <= tmax d' /\ tmax d' <= d_last_max d'.
 Proof.
-  intros Hwf Hle. cbv zeta.
+  intros Hwf Hle. cbv zeta. unfold required_update_pending in Hle.
   destruct (decode_chunks_from_inv hd frags d [] Hwf) as ((_ & _ & A) & _ & C & D & _).
-  fold (decode_chunks hd d frags) in A, C, D. split; [exact A|]. destruct D as [D|D]; lia.
+  fold (decode_chunks hd d frags) in A, C, D. unfold last_limit_of in *.
+  split; [exact A|]. destruct D as [D|D]; lia.
 Qed.
 
-Example hpack_table_within_current_limit_example : 
-  wf (decoder_new 4096) /\ tmax (decoder_new 4096) <= last_limit_of (decoder_new 4096).
-Proof. split; [apply wf_table_new|vm_compute; discriminate]. Qed.
+Example hpack_table_within_limit_example :
+  wf (decoder_new 4096) /\ ~ required_update_pending (decoder_new 4096).
+Proof. split; [apply wf_table_new|]. unfold required_update_pending. vm_compute. discriminate. Qed.
 
 (* ===================================================================================== *)
 (* Part E: feeding a block in fragments                                                   *)
@@ -1741,9 +1748,9 @@ Proof.
   - cbn [stable_rd]. destruct (is_need_more e); [exact I|]. rewrite Hi. stab.
 Qed.
 
-Lemma header_new_err_hard c r v e : header_new (c :: r) v = HErr e -> is_need_more e = false.
+Lemma header_new_err_hard n v e : header_new n v = HErr e -> is_need_more e = false.
 Proof.
-  unfold header_new.
+  unfold header_new. destruct n as [|c r]; [intros H; inversion H; reflexivity|].
   repeat match goal with
          | |- (if ?c then _ else _) = _ -> _ => destruct c
          end;
@@ -1792,9 +1799,7 @@ Proof.
     cbn [stable_l].
     assert (Hl : (if vh then if nh then bs ++ x else r1 ++ x else r2 ++ x) =
                  (if vh then if nh then bs else r1 else r2) ++ x) by (destruct vh, nh; stab).
-    rewrite Hl. destruct name as [|c r].
-    + cbn [qnone]. rewrite andb_false_r. stab.
-    + rewrite (header_new_err_hard _ _ _ _ E3). stab.
+    rewrite Hl. rewrite (header_new_err_hard _ _ _ E3). stab.
   - destruct (table_get t idx) as [e|e|]; [|stab|stab].
     pose proof (try_decode_string_stable hd r0 x) as H1.
     destruct (try_decode_string hd r0) as [[vh value] r1|err]; cbn [stable_rd] in H1.
@@ -2124,101 +2129,100 @@ Qed.
    way framed_read.rs does it (keep what `take` left in the BytesMut, append the next payload,
    call decode again after Ok or NeedMore; NeedMore on the last fragment is final), yields the
    same headers, the same verdict (error class) and the same decoder state (dynamic table,
-   ceiling) as decoding the whole block at once -- PROVIDED the whole-block run does not hit
-   one of the two quirks ([r_quirk] = QNone):
-     QMisplacedUpdate  a size update after a header field (whole: InvalidMaxDynamicSize)
-     QEmptyName        a literal with an empty name (whole: NeedMore(UnexpectedEndOfStream))
-   For both quirks the fragmented run really differs: Examples chunking_differs_* below.
+   ceiling) as decoding the whole block at once -- EXCEPT for the known finding KF-C11-1: the
+   whole-block run meets a size update after a header field ([size_update_after_field], ghost
+   component [r_quirk] = QMisplacedUpdate; visible verdict InvalidMaxDynamicSize).  There the
+   fragmented run can really differ (known_1_refuted below): `can_resize` is a local of
+   Decoder::decode and is true again on every call.
    No hypothesis on the decoder state, the octets or [hd]. *)
-Theorem hpack_chunking hd d frags :
-  frags <> [] ->
-  r_quirk (decode hd d (concat frags)) = QNone ->
-  same_result (decode_chunks hd d frags) (decode hd d (concat frags)).
-Proof. intros Hne Hq. exact (chunks_from_whole hd frags d [] Hne Hq). Qed.
+Definition size_update_after_field (hd : list N -> option (list N)) (d : decoder) (bs : list N)
+  : Prop := r_quirk (decode hd d bs) = QMisplacedUpdate.
 
-(* the quirks in terms of the visible verdict *)
+Lemma quirk_cases q : q = QNone \/ q = QMisplacedUpdate.
+Proof. destruct q; auto. Qed.
+
+Theorem hpack_chunking_except_known hd d frags :
+  frags <> [] ->
+  ~ size_update_after_field hd d (concat frags) ->
+  same_result (decode_chunks hd d frags) (decode hd d (concat frags)).
+Proof.
+  intros Hne Hq. apply (chunks_from_whole hd frags d [] Hne).
+  destruct (quirk_cases (r_quirk (decode hd d ([] ++ concat frags)))) as [H|H]; [exact H|].
+  contradiction.
+Qed.
+
+(* the exception in terms of the visible verdict *)
 Lemma run_quirk_verdict hd : forall n bs, (length bs <= n)%nat -> forall cr d,
-  match r_quirk (decode_run hd cr d bs) with
-  | QNone => True
-  | QMisplacedUpdate => r_verdict (decode_run hd cr d bs) = VErr InvalidMaxDynamicSize
-  | QEmptyName => r_verdict (decode_run hd cr d bs) = VErr (NeedMore UnexpectedEndOfStream)
-  end.
+  r_quirk (decode_run hd cr d bs) = QMisplacedUpdate ->
+  r_verdict (decode_run hd cr d bs) = VErr InvalidMaxDynamicSize.
 Proof.
   induction n as [|n IH]; intros bs Hl cr d.
-  - destruct bs; [exact I|cbn [length] in Hl; lia].
-  - destruct bs as [|ty t]; [exact I|]. rewrite run_cons.
+  - destruct bs; [discriminate|cbn [length] in Hl; lia].
+  - destruct bs as [|ty t]; [discriminate|]. rewrite run_cons.
     pose proof (step_suffix hd cr d ty (ty :: t)) as Hs.
     assert (Hq : match decode_step hd cr d ty (ty :: t) with
                  | SErr e _ QMisplacedUpdate => e = InvalidMaxDynamicSize
-                 | SErr e _ QEmptyName => e = NeedMore UnexpectedEndOfStream
                  | _ => True end).
     { unfold decode_step. destruct (repr_load ty) as [[| | | |]|e]; try exact I.
       - destruct (decode_int 7 (ty :: t)); [|exact I]. destruct (table_get (d_table d) v); exact I.
       - assert (A : match decode_literal hd (d_table d) (ty :: t) true with
-                    | LErr e _ QMisplacedUpdate => False
-                    | LErr e _ QEmptyName => e = NeedMore UnexpectedEndOfStream | _ => True end).
+                    | LErr e _ QMisplacedUpdate => False | _ => True end).
         { unfold decode_literal. destruct (decode_int 6 (ty :: t)); [|exact I]. destruct (v =? 0).
           - destruct (try_decode_string hd rest) as [[nh name] r1|]; [|exact I].
             destruct (try_decode_string hd r1) as [[vh value] r2|]; [|exact I].
-            destruct name as [|c r]; [cbn [header_new]; reflexivity|].
-            destruct (header_new (c :: r) value); exact I.
+            destruct (header_new name value); exact I.
           - destruct (table_get (d_table d) v); try exact I.
             destruct (try_decode_string hd rest) as [[vh value] r1|]; [|exact I].
             destruct (into_entry (fst f) value); exact I. }
         destruct (decode_literal hd (d_table d) (ty :: t) true) as [f r|e l q|]; try exact I.
-        destruct q; [exact I|contradiction|exact A].
+        destruct q; [exact I|contradiction].
       - assert (A : match decode_literal hd (d_table d) (ty :: t) false with
-                    | LErr e _ QMisplacedUpdate => False
-                    | LErr e _ QEmptyName => e = NeedMore UnexpectedEndOfStream | _ => True end).
+                    | LErr e _ QMisplacedUpdate => False | _ => True end).
         { unfold decode_literal. destruct (decode_int 4 (ty :: t)); [|exact I]. destruct (v =? 0).
           - destruct (try_decode_string hd rest) as [[nh name] r1|]; [|exact I].
             destruct (try_decode_string hd r1) as [[vh value] r2|]; [|exact I].
-            destruct name as [|c r]; [cbn [header_new]; reflexivity|].
-            destruct (header_new (c :: r) value); exact I.
+            destruct (header_new name value); exact I.
           - destruct (table_get (d_table d) v); try exact I.
             destruct (try_decode_string hd rest) as [[vh value] r1|]; [|exact I].
             destruct (into_entry (fst f) value); exact I. }
         destruct (decode_literal hd (d_table d) (ty :: t) false) as [f r|e l q|]; try exact I.
-        destruct q; [exact I|contradiction|exact A].
+        destruct q; [exact I|contradiction].
       - assert (A : match decode_literal hd (d_table d) (ty :: t) false with
-                    | LErr e _ QMisplacedUpdate => False
-                    | LErr e _ QEmptyName => e = NeedMore UnexpectedEndOfStream | _ => True end).
+                    | LErr e _ QMisplacedUpdate => False | _ => True end).
         { unfold decode_literal. destruct (decode_int 4 (ty :: t)); [|exact I]. destruct (v =? 0).
           - destruct (try_decode_string hd rest) as [[nh name] r1|]; [|exact I].
             destruct (try_decode_string hd r1) as [[vh value] r2|]; [|exact I].
-            destruct name as [|c r]; [cbn [header_new]; reflexivity|].
-            destruct (header_new (c :: r) value); exact I.
+            destruct (header_new name value); exact I.
           - destruct (table_get (d_table d) v); try exact I.
             destruct (try_decode_string hd rest) as [[vh value] r1|]; [|exact I].
             destruct (into_entry (fst f) value); exact I. }
         destruct (decode_literal hd (d_table d) (ty :: t) false) as [f r|e l q|]; try exact I.
-        destruct q; [exact I|contradiction|exact A].
+        destruct q; [exact I|contradiction].
       - destruct (negb cr); [reflexivity|]. destruct (decode_int 5 (ty :: t)); [|exact I].
         destruct (d_last_max d <? v); [exact I|].
         destruct (table_set_max_size (d_table d) v); exact I. }
-    destruct (decode_step hd cr d ty (ty :: t)) as [f d' rest|d' rest|e l q|]; try exact I.
+    destruct (decode_step hd cr d ty (ty :: t)) as [f d' rest|d' rest|e l q|]; try discriminate.
     + destruct Hs as (pre & E & Hne). pose proof (suffix_shorter pre rest Hne) as Hlr.
       rewrite <- E in Hlr. cbn [length] in Hl, Hlr.
       cbn [prepend r_quirk r_verdict]. apply (IH rest ltac:(lia) false d').
     + destruct Hs as (pre & E & Hne). pose proof (suffix_shorter pre rest Hne) as Hlr.
       rewrite <- E in Hlr. cbn [length] in Hl, Hlr.
       apply (IH rest ltac:(lia) cr d').
-    + cbn [r_quirk r_verdict]. destruct q; [exact I|rewrite Hq; reflexivity|rewrite Hq; reflexivity].
+    + cbn [r_quirk r_verdict]. intros ->. rewrite Hq. reflexivity.
 Qed.
 
 (* In particular: every block that decodes successfully as a whole decodes identically in every
-   fragmentation, and so does every block that fails with any error class other than the two
-   ambiguous ones. *)
+   fragmentation, and so does every block that fails with any error class other than
+   InvalidMaxDynamicSize. *)
 Corollary hpack_chunking_by_verdict hd d frags :
   frags <> [] ->
   r_verdict (decode hd d (concat frags)) <> VErr InvalidMaxDynamicSize ->
-  r_verdict (decode hd d (concat frags)) <> VErr (NeedMore UnexpectedEndOfStream) ->
   same_result (decode_chunks hd d frags) (decode hd d (concat frags)).
 Proof.
-  intros Hne H1 H2. apply hpack_chunking; [exact Hne|].
-  pose proof (run_quirk_verdict hd (length (concat frags)) (concat frags) (le_n _) true (take_queued d)) as Hq.
-  rewrite <- decode_is_run in Hq.
-  destruct (r_quirk (decode hd d (concat frags))); [reflexivity|contradiction|contradiction].
+  intros Hne H1. apply hpack_chunking_except_known; [exact Hne|].
+  unfold size_update_after_field. intros Hq. apply H1.
+  rewrite decode_is_run in *.
+  exact (run_quirk_verdict hd (length (concat frags)) (concat frags) (le_n _) true (take_queued d) Hq).
 Qed.
 
 Corollary hpack_chunking_ok hd d frags :
@@ -2226,16 +2230,19 @@ Corollary hpack_chunking_ok hd d frags :
   r_verdict (decode hd d (concat frags)) = VOk ->
   same_result (decode_chunks hd d frags) (decode hd d (concat frags)).
 Proof.
-  intros Hne Hv. apply hpack_chunking_by_verdict; [exact Hne| |]; rewrite Hv; discriminate.
+  intros Hne Hv. apply hpack_chunking_by_verdict; [exact Hne|]; rewrite Hv; discriminate.
 Qed.
 
 Example hpack_chunking_example hd :
   (* RFC 7541 C.2.1 cut in three places, one of them inside the name string *)
   let frags := [[64; 10; 99; 117]; [115; 116; 111; 109; 45; 107; 101; 121; 13; 99]; [];
                 [117; 115; 116; 111; 109; 45; 104; 101; 97; 100; 101; 114]] in
-  frags <> [] /\ r_quirk (decode hd (decoder_new 4096) (concat frags)) = QNone /\
+  frags <> [] /\ ~ size_update_after_field hd (decoder_new 4096) (concat frags) /\
   r_fields (decode_chunks hd (decoder_new 4096) frags) = [(bstr "custom-key", bstr "custom-header")].
-Proof. cbv zeta. split; [discriminate|]. vm_compute. auto. Qed.
+Proof.
+  cbv zeta. split; [discriminate|].
+  split; [unfold size_update_after_field; vm_compute; discriminate|vm_compute; reflexivity].
+Qed.
 
 (* ===================================================================================== *)
 (* Part F: examples                                                                       *)
@@ -2376,67 +2383,83 @@ Example oversize_entry_empties_table hd :
   (r_verdict r2, length (r_fields r2), t_size (d_table (r_dec r2)), ent (r_dec r2)) = (VOk, 1%nat, 0, []).
 Proof. vm_compute. auto. Qed.
 
-(* ---- the three deviations of h2 from the property, reproduced on the real decoder by the
-   harness (corpus/hpackdec/findings.jsonl), here as facts about the model ---- *)
+(* ---- the known findings, as facts about the model (reproduced on the real decoder by the
+   harness: corpus/hpackdec/cases.jsonl) ---- *)
 
-(* 1. `can_resize` is a local of Decoder::decode: it is true again when decoding resumes with the
-   next CONTINUATION fragment.  Whole block: error.  Same block in two fragments: accepted, and
-   the table maximum is set to 0 in the middle of the block. *)
+(* KF-C11-1.  `can_resize` is a local of Decoder::decode: it is true again when decoding resumes
+   with the next CONTINUATION fragment.  Whole block: error.  Same block in two fragments:
+   accepted, and the table maximum is set to 0 in the middle of the block. *)
 Example chunking_differs_misplaced_update hd :
   let d := decoder_new 4096 in
   r_verdict (decode hd d (concat [[130]; [32]])) = VErr InvalidMaxDynamicSize /\
-  r_quirk (decode hd d (concat [[130]; [32]])) = QMisplacedUpdate /\
+  size_update_after_field hd d (concat [[130]; [32]]) /\
   r_verdict (decode_chunks hd d [[130]; [32]]) = VOk /\
   tmax (r_dec (decode_chunks hd d [[130]; [32]])) = 0 /\
   ref_decode_block hd h2_int_limit (abs d) [130; 32] = None.
-Proof. vm_compute. auto. Qed.
+Proof. unfold size_update_after_field. vm_compute. auto. Qed.
 
-(* 2. `Header::new` answers an empty name with NeedMore(UnexpectedEndOfStream) *after* the raw
-   strings have been split off the buffer.  Whole block: hard error.  When a fragment boundary
-   follows the representation, the error is taken for "need more input", and the header is
-   silently dropped; RFC 7541 assigns the block the list [("", "a"); (":method", "GET")]. *)
-Example chunking_differs_empty_name hd :
-  let d := decoder_new 4096 in
-  r_verdict (decode hd d (concat [[0; 0; 1; 97]; [130]])) = VErr (NeedMore UnexpectedEndOfStream) /\
-  r_quirk (decode hd d (concat [[0; 0; 1; 97]; [130]])) = QEmptyName /\
-  (r_verdict (decode_chunks hd d [[0; 0; 1; 97]; [130]]),
-   r_fields (decode_chunks hd d [[0; 0; 1; 97]; [130]])) = (VOk, [fstr ":method" "GET"]) /\
-  option_map fst (ref_decode_block hd h2_int_limit (abs d) [0; 0; 1; 97; 130]) =
-    Some [([], [97]); fstr ":method" "GET"].
-Proof. vm_compute. auto. Qed.
-
-(* ... with a raw empty name and a Huffman coded value only the name is split off: decoding
-   resumes at the value's length octet, which is then read as a representation of its own
-   (here 129 = indexed field 1, :authority) *)
-Example chunking_resyncs_inside_representation (hd : list N -> option (list N)) :
-  hd [31] = Some [97] ->
-  let d := decoder_new 4096 in
-  r_left (decode hd d [0; 0; 129; 31]) = [129; 31].
+(* the unconditional chunking statement is false *)
+Theorem known_1_refuted :
+  ~ (forall (hd : list N -> option (list N)) d frags, frags <> [] ->
+       same_result (decode_chunks hd d frags) (decode hd d (concat frags))).
 Proof.
-  intros H. unfold decode. cbn [length take_queued decoder_new d_queued].
-  rewrite decode_loop_S. unfold decode_step.
-  change (repr_load 0) with (@inl repr dec_err LiteralWithoutIndexing). cbv iota.
-  unfold decode_literal. change (decode_int 4 [0; 0; 129; 31]) with (@ROk N 0 [0; 129; 31]).
-  cbv iota. change (0 =? 0) with true. cbv iota.
-  change (try_decode_string hd [0; 129; 31]) with (@ROk (bool * list N) (false, []) [129; 31]).
-  cbv iota. unfold try_decode_string at 1.
-  change (decode_int 7 [129; 31]) with (@ROk N 1 [31]). cbv iota.
-  change (split_n 1 [31]) with (Some ([31], @nil N)). cbv iota.
-  change (N.land 129 128 =? 128) with true. cbv iota. rewrite H. reflexivity.
+  intros H. specialize (H (fun _ => None) (decoder_new 4096) [[130]; [32]] ltac:(discriminate)).
+  destruct H as (_ & Hv & _). vm_compute in Hv. discriminate.
 Qed.
 
-(* 3. A lowered SETTINGS_HEADER_TABLE_SIZE is only a ceiling for later size updates: when the
-   peer does not send the size update RFC 7541 4.2 requires, the block is accepted and the table
-   keeps more than the advertised limit.  (So [hpack_table_bounded] cannot be strengthened to the
-   limit in force, and [hpack_decode_sound_rfc] needs its hypothesis.) *)
+(* KF-C11-3.  A lowered SETTINGS_HEADER_TABLE_SIZE is only a ceiling for later size updates: when
+   the peer does not send the size update RFC 7541 4.2 requires, the block is accepted and the
+   table keeps more than the advertised limit. *)
 Example limit_reduction_not_enforced hd :
   let d1 := r_dec (decode hd (decoder_new 4096)
                      [64; 10; 99; 117; 115; 116; 111; 109; 45; 107; 101; 121;
                       13; 99; 117; 115; 116; 111; 109; 45; 104; 101; 97; 100; 101; 114]) in
   let d2 := queue_size_update d1 0 in
   let r := decode hd d2 [130] in
+  required_update_pending d2 /\
   r_verdict r = VOk /\ d_last_max (r_dec r) = 0 /\ t_size (d_table (r_dec r)) = 55 /\
   tmax (r_dec r) = 4096 /\
   ref_decode_block hd h2_int_limit (abs (take_queued d2)) [130] <> None /\
   rfc_ref_decode_block hd h2_int_limit (abs (take_queued d2)) [130] = None.
-Proof. vm_compute. repeat split; auto; discriminate. Qed.
+Proof. unfold required_update_pending. vm_compute. repeat split; auto; discriminate. Qed.
+
+(* the statements without the exception are false: the table can exceed the limit in force, and
+   a block is accepted that the RFC (with 4.2) rejects *)
+Definition known_3_history : list event :=
+  [EBlock [[64; 10; 99; 117; 115; 116; 111; 109; 45; 107; 101; 121;
+            13; 99; 117; 115; 116; 111; 109; 45; 104; 101; 97; 100; 101; 114]];
+   EQueue 0; EBlock [[130]]].
+
+Theorem known_3_refuted :
+  ~ (forall (hd : list N -> option (list N)) size evs,
+       let d := run_events hd (decoder_new size) evs in
+       t_size (d_table d) <= d_last_max d) /\
+  ~ (forall (hd : list N -> option (list N)) d bs, wf d -> octets bs ->
+       r_verdict (decode hd d bs) = VOk ->
+       rfc_block_decodes hd h2_int_limit (abs (take_queued d)) bs
+                         (r_fields (decode hd d bs)) (abs (r_dec (decode hd d bs)))).
+Proof.
+  split.
+  - intros H. specialize (H (fun _ => None) 4096 known_3_history). vm_compute in H.
+    apply H. reflexivity.
+  - intros H.
+    set (hd := fun _ : list N => @None (list N)).
+    set (d2 := queue_size_update
+                 (r_dec (decode hd (decoder_new 4096)
+                           [64; 10; 99; 117; 115; 116; 111; 109; 45; 107; 101; 121;
+                            13; 99; 117; 115; 116; 111; 109; 45; 104; 101; 97; 100; 101; 114])) 0).
+    assert (Hwf : wf d2).
+    { unfold d2, queue_size_update, wf. cbn [d_table].
+      apply (decode_inv hd (decoder_new 4096) _ (wf_table_new 4096)). }
+    specialize (H hd d2 [130] Hwf ltac:(apply bytes_ok_octets; reflexivity) ltac:(vm_compute; reflexivity)).
+    apply rfc_ref_decode_block_spec in H. vm_compute in H. discriminate.
+Qed.
+
+(* an empty literal name is a hard error whole and in fragments (h2 commit a9c11d7; before, the
+   fragmented block was accepted with the header dropped) *)
+Example empty_name_is_hard_error hd :
+  let d := decoder_new 4096 in
+  r_verdict (decode hd d [0; 0; 1; 97; 130]) = VErr InvalidUtf8 /\
+  r_verdict (decode_chunks hd d [[0; 0; 1; 97]; [130]]) = VErr InvalidUtf8 /\
+  r_fields (decode_chunks hd d [[0; 0; 1; 97]; [130]]) = [].
+Proof. vm_compute. auto. Qed.
